@@ -88,6 +88,7 @@ func scenFold(out *scenOut, r *rng, thorough bool) {
 	kindsReachUpdate(out)
 	heldMessagesStayIntact(out)
 	slowViewNoOverlap(out)
+	restoreFromOutsideDuringUpdate(out)
 	printlnKeepsItsPlace(out)
 	sendsAcrossExec(out, "nil")
 	sendsAcrossExec(out, "blocking")
@@ -507,6 +508,9 @@ func scenCmds(out *scenOut, r *rng, thorough bool) {
 		cmdResultsAcrossExec(out, input)
 	}
 	twoBigBatches(out)
+	for _, shape := range []string{"update", "init", "nested", "nils"} {
+		quitBesideBlockedCommand(out, shape)
+	}
 	twoProgramsCommands(out)
 	typedNilResults(out)
 }
@@ -2596,5 +2600,103 @@ func typedNilResults(out *scenOut) {
 	if got != "2 1 1" {
 		out.fail(finding{Property: "C02", Class: "new", What: "a command's non-nil result whose content is nil (a nil slice / map / pointer of a message type) was not delivered to Update exactly once", Input: desc,
 			Expected: "nil slice twice, nil map once, nil pointer once", Observed: got})
+	}
+}
+
+// restoreFromOutsideDuringUpdate (round 16, C01-p): ReleaseTerminal / RestoreTerminal are public and may be
+// called from any goroutine. Called while an Update is in progress they must not run any of the model's
+// callbacks themselves (the overlap monitor counts a callback entered while another is in progress).
+func restoreFromOutsideDuringUpdate(out *scenOut) {
+	ctl := newRecCtl()
+	hold := make(chan struct{})
+	entered := make(chan struct{})
+	var once sync.Once
+	ctl.onUpdate = func(m tea.Msg, v int) tea.Cmd {
+		if u, ok := m.(userMsg); ok && u.Sender == 4 {
+			once.Do(func() { close(entered) })
+			<-hold
+		}
+		return nil
+	}
+	run := startProgram(ctl, nil, tea.WithInput(nil), tea.WithoutSignalHandler())
+	desc := "Update held; ReleaseTerminal and RestoreTerminal called from another goroutine meanwhile, twice"
+	run.p.Send(userMsg{0, 0})
+	waitFor(2*time.Second, func() bool { return ctl.log.has("view-exit", "") })
+	go run.p.Send(userMsg{4, 0})
+	select {
+	case <-entered:
+	case <-time.After(3 * time.Second):
+		killNow(run.p)
+		run.wait(3 * time.Second)
+		return
+	}
+	outside := make(chan struct{})
+	go func() {
+		defer close(outside)
+		for i := 0; i < 2; i++ {
+			_ = run.p.ReleaseTerminal()
+			_ = run.p.RestoreTerminal()
+		}
+	}()
+	select {
+	case <-outside:
+	case <-time.After(4 * time.Second):
+	}
+	close(hold)
+	run.p.Send(userMsg{6, 6})
+	waitFor(3*time.Second, func() bool { return ctl.log.has("update-exit", "u6.6") })
+	run.p.Quit()
+	if !run.wait(4 * time.Second) {
+		killNow(run.p)
+		run.wait(3 * time.Second)
+	}
+	out.record("restore-from-outside-during-update", desc)
+	if n := atomic.LoadInt32(&ctl.overlaps); n != 0 {
+		out.fail(finding{Property: "C01", Class: "new", What: "Init / Update / View / filter executed concurrently with one another (RestoreTerminal from another goroutine during an Update)", Input: desc, Expected: "0 overlaps", Observed: fmt.Sprint(n)})
+	}
+}
+
+// quitBesideBlockedCommand (round 16, C02-p): a Batch holding a command that blocks for ever next to Quit.
+// "A command that blocks (even forever) never delays other commands of the same Batch, or the program's
+// exit": the quit message must arrive and Run return while the blocked command is still blocked.
+func quitBesideBlockedCommand(out *scenOut, shape string) {
+	ctl := newRecCtl()
+	block := make(chan struct{})
+	defer close(block)
+	blocker := func() tea.Msg { <-block; return nil }
+	quick := func() tea.Msg { return cmdMsg{"quick"} }
+	var batch tea.Cmd
+	switch shape {
+	case "nested":
+		batch = tea.Batch(quick, tea.Batch(blocker, tea.Quit))
+	case "nils":
+		batch = tea.Batch(nil, blocker, nil, tea.Quit)
+	default:
+		batch = tea.Batch(blocker, tea.Quit)
+	}
+	if shape == "init" {
+		ctl.initCmd = batch
+	}
+	ctl.onUpdate = func(m tea.Msg, v int) tea.Cmd {
+		if u, ok := m.(userMsg); ok && u.Sender == 0 && u.Seq == 0 && shape != "init" {
+			return batch
+		}
+		return nil
+	}
+	run := startProgram(ctl, nil, tea.WithInput(nil), tea.WithoutSignalHandler())
+	desc := "Batch(a command that never returns, Quit) shape=" + shape
+	if shape != "init" {
+		go run.p.Send(userMsg{0, 0})
+	}
+	out.record("quit-beside-blocked "+shape, desc)
+	if !run.wait(4 * time.Second) {
+		out.fail(finding{Property: "C02", Class: "new", What: "a command that blocks for ever delayed a command of the same Batch (Quit) and with it the program's exit", Input: desc,
+			Expected: "Run returns nil while the blocked command is still blocked", Observed: "Run has not returned after 4 s"})
+		killNow(run.p)
+		run.wait(3 * time.Second)
+		return
+	}
+	if errClass(run.err) != "nil" {
+		out.fail(finding{Property: "C02", Class: "new", What: "Quit beside a blocked command ended the program with an error", Input: desc, Expected: "nil", Observed: fmt.Sprint(run.err)})
 	}
 }
